@@ -14,9 +14,11 @@ CONSTANTS MaxSends,   \* client messages per behaviour (Startup included)
           Rich        \* TRUE: full alphabet; FALSE: core alphabet
 
 VARIABLES hist,  \* environment steps so far (exported)
-          cur    \* the top-level message whose reaction is in progress
+          cur,   \* the top-level message whose reaction is in progress
+          gone   \* names a Close was sent for: C06 does not judge what Close does to a
+                 \* name (C07 does), so these are not referred to again
 
-mcvars == <<vars, hist, cur>>
+mcvars == <<vars, hist, cur, gone>>
 
 Cfg0 == [auth |-> "none", tls |-> "nil", params |-> <<>>, version |-> "", mw |-> <<>>,
          term |-> "ok", limit |-> 8192]
@@ -62,24 +64,32 @@ StartupMsg == [t |-> "Startup", term |-> TRUE, kvs |-> <<[k |-> "user", v |-> "u
 
 Quiet == inq = <<>> /\ ~ENABLED ServerStep
 
-MCInit == InitWith(Cfg0) /\ hist = <<>> /\ cur = [t |-> "-", skipped |-> FALSE]
+Refers(m) == CASE m.t = "P" -> {<<"S", m.name>>}
+               [] m.t = "B" -> {<<"S", m.stmt>>, <<"P", m.portal>>}
+               [] m.t = "D" -> {<<m.kind, m.name>>}
+               [] m.t = "E" -> {<<"P", m.portal>>}
+               [] OTHER -> {}
+
+MCInit == InitWith(Cfg0) /\ hist = <<>> /\ cur = [t |-> "-", skipped |-> FALSE] /\ gone = {}
 
 MCSend ==
     /\ Quiet /\ Len(hist) < MaxSends
     /\ \E m \in IF phase = "startup" THEN {StartupMsg} ELSE Alphabet :
+          /\ Refers(m) \cap gone = {}
           /\ ClientSend(m)
           /\ hist' = Append(hist, [k |-> "send", m |-> m])
+          /\ gone' = IF m.t = "C" THEN gone \cup {<<m.kind, m.name>>} ELSE gone
     /\ UNCHANGED cur
 
 MCServer ==
     /\ ServerStep
     /\ cur' = IF Reading("ready") THEN [t |-> Head1.t, skipped |-> skip] ELSE cur
-    /\ UNCHANGED hist
+    /\ UNCHANGED <<hist, gone>>
 
 MCNext == MCSend \/ MCServer
 MCSpec == MCInit /\ [][MCNext]_mcvars
 
-View == <<vars, cur>>
+View == <<vars, cur, gone>>
 
 Cover == (hist' # hist) => ExportRecord([cfg |-> cfg, steps |-> hist'])
 
